@@ -411,6 +411,9 @@ def run(ctx):
         if ctx.quick:
             seqs = seqs[::3] + seqs[-6:]
             ctx.cap_hit("%s: two-box diagrams every 3rd (all single boxes complete)" % cls)
+        else:
+            seqs = seqs[::2] + seqs[-6:]
+            ctx.cap_hit("%s: two-box diagrams every 2nd over the larger expression menu (all single boxes complete)" % cls)
         for seq in seqs:
             for sub in (SUBS[0], SUBS[3], SUBS[4], SUBS[7], SUBS[8]):
                 mode = "args" if len(sub[1]) == 1 else "pairs"
